@@ -16,7 +16,7 @@ use crate::engine::{Case, Ctx, Sm64};
 use crate::gen::shard::{key, materialize, mh, serialize, shard_spec, unkey, ShardSpec, K};
 use crate::util::SlowReader;
 
-pub const RULE: &str = "shard contents = sets of distinct-keyed file / xorb records (0..3000 files, 0..600 xorbs, 0..40 segments or chunks each, four flag combinations, empty records) whose truncated keys are engineered (0, 1, MAX-1, MAX, clustered windows, uniform, shared prefixes up to 7 per prefix); oracle = the map model the shard was built from: every present key returns exactly its record, absent / same-prefix / neighbouring-prefix keys return not-found, scans return all records in table order, sizes and totals match, the streaming (sync + async with generated read fragmentation) and minimal readers (all include-flag pairs, and their re-serialization) yield the same record bytes. Second stream: raw sorted (u64,u32) tables of 0..5000 keys with duplicate runs and extreme values against a linear-scan model of search_on_sorted_u64s. non-trivial = a lookup table of > 256 entries queried for a key (so the interpolation phase runs) with >= 2 records sharing its prefix, or a shard with >= 2 records sharing a prefix; for raw tables: > 256 entries and a queried key with >= 2 entries; distinct by fingerprint of the generated case";
+pub const RULE: &str = "shard contents = sets of distinct-keyed file / xorb records (0..3000 files, 0..600 xorbs, 0..40 segments or chunks each and occasionally 70..130 segments of 60-64 MiB, i.e. files over 4 GiB; four flag combinations, empty records) whose truncated keys are engineered (0, 1, MAX-1, MAX, clustered windows, uniform, shared prefixes up to 7 per prefix); oracle = the map model the shard was built from: every present key returns exactly its record, absent / same-prefix / neighbouring-prefix keys return not-found, scans return all records in table order, sizes and totals match, the streaming (sync + async with generated read fragmentation) and minimal readers (all include-flag pairs, and their re-serialization) yield the same record bytes. Second stream: raw sorted (u64,u32) tables of 0..5000 keys with duplicate runs and extreme values against a linear-scan model of search_on_sorted_u64s. non-trivial = a lookup table of > 256 entries queried for a key (so the interpolation phase runs) with >= 2 records sharing its prefix, or a shard with >= 2 records sharing a prefix; for raw tables: > 256 entries and a queried key with >= 2 entries; distinct by fingerprint of the generated case";
 
 pub const ASSUMPTIONS: &[&str] = &[
     "shard contents are sets of distinct keys (the quantifier ranges over contents, not insertion histories)",
@@ -316,6 +316,16 @@ fn shard_oracle(c: &ShardCase, info: &mut Case) -> Result<(), String> {
         if si.num_bytes() != re.len() as u64 {
             return Err("[sig:c09-minimal-reload] re-serialized minimal shard: num_bytes differs from its length".into());
         }
+        // its byte totals are those of the records it kept
+        let (wm, ws, wd) = (if inc_f { mat } else { 0 }, if inc_c { stored } else { 0 }, if inc_c { on_disk } else { 0 });
+        if si.materialized_bytes() != wm || si.stored_bytes() != ws || si.stored_bytes_on_disk() != wd {
+            return Err(format!(
+                "[sig:c09-minimal-totals] re-serialized minimal shard (files {inc_f}, cas {inc_c}): footer totals (materialized {}, stored {}, on-disk {}) differ from the sums over its records ({wm}, {ws}, {wd})",
+                si.materialized_bytes(),
+                si.stored_bytes(),
+                si.stored_bytes_on_disk()
+            ));
+        }
         let f2 = si.read_all_file_info_sections(&mut Cursor::new(&re)).map_err(|e| format!("[sig:c09-minimal-reload] {e}"))?;
         let c2 = si.read_all_cas_blocks_full(&mut Cursor::new(&re)).map_err(|e| format!("[sig:c09-minimal-reload] {e}"))?;
         if (inc_f && f2 != want_files) || (!inc_f && !f2.is_empty()) || (inc_c && c2 != want_cas) || (!inc_c && !c2.is_empty()) {
@@ -340,6 +350,9 @@ fn shard_oracle(c: &ShardCase, info: &mut Case) -> Result<(), String> {
     }
     if model.files.is_empty() && model.xorbs.is_empty() {
         info.label("empty-shard");
+    }
+    if model.files.values().any(|f| f.segments.iter().map(|s| s.unpacked_segment_bytes as u64).sum::<u64>() >= 1 << 32) {
+        info.label("has-file-of-4GiB-or-more");
     }
     if model.files.values().any(|f| f.segments.is_empty()) || model.xorbs.values().any(|x| x.chunks.is_empty()) {
         info.label("has-empty-record");
